@@ -411,6 +411,15 @@ def run(run: Run):
     run.guard('C04.R1', r1, run, src, rt)
     run.guard('C04.R2', r2, run, rt)
     run.guard('C04.R3', r3, run, src)
+    # an override only reaches a reference that goes through the override-aware accessor: references are minted by the context
+    from .common import borrow
+    from . import c03
+    from ..grammar import get_grammar
+    from ..emission import get_emission
+    from ..callgraph import get_callgraph
+    run.rule('C04.R5', 'every cell reference in emitted code is minted by the context for a registered member (shared with C03.R1)')
+    borrow(run, 'C04.R5', c03.r1, src, get_grammar(src), get_emission(src), get_callgraph(src))
+    run.floor('C04.R5', 10)
     from .common import check_per_instance_state
     run.rule('C04.R4', 'overrides are per instance: no class-level mutable state is changed in place or handed out')
     run.guard('C04.R4', check_per_instance_state, run, 'C04.R4', get_runtime(get_source()))
